@@ -341,7 +341,9 @@ impl<C: CellType> OptRebuild<'_, C> {
     /// the necessary pending operations.
     fn perform_all(&mut self, shift: isize, calcs: &[(isize, Expr<C>)]) {
         let mut exprs = SmallVec::<_, 1>::with_capacity(calcs.len());
-        for (var, expr) in calcs {
+        // The calculations happen at the same time, so everything that has to be
+        // emitted first must be emitted before any of them is evaluated.
+        for (_, expr) in calcs {
             // Special check to avoid the worst type of exponential explosion.
             for vars in expr.grouped_vars() {
                 if vars.len() >= 2 {
@@ -356,6 +358,8 @@ impl<C: CellType> OptRebuild<'_, C> {
                     }
                 }
             }
+        }
+        for (var, expr) in calcs {
             let pending = self.eval_pending(shift, expr);
             exprs.push((shift + *var, pending));
         }
